@@ -117,15 +117,20 @@ Theorem C11_copy_up_preserves_symlink : forall hu s p n lr rest tg s',
   exists r', n_reals n' = [r'] /\ r_upper r' = true /\ real_tree s' r' = Some (Lnk tg).
 Proof. exact copy_symlink_up_preserves. Qed.
 (* ... directory (and each missing ancestor, created by the recursive call of the same function)
-   -> created with the mode of its lower instance (mkdirat keeps 01777) and kept merged with it. *)
+   -> created with the mode of its lower instance and kept merged with it: [cu_mode m] = m & 07777 when the lower mode has
+   set-uid / set-gid bits (mkdir, then chmod: repaired by 61854eb), m & 01777 otherwise (what mkdirat keeps: the same value
+   when there are no such bits). *)
 Theorem C11_copy_up_preserves_dir : forall hu fuel s p n m x ch s',
   Inv hu s -> nget p (root s) = Some n -> in_upper n = false ->
   node_stat s n = Some (Dir m x ch) ->
   create_upper_dir fuel p s = (Ok tt, s') ->
   forall n', nget p (root s') = Some n' ->
   exists r' rs', n_reals n' = r' :: rs' /\ r_upper r' = true /\
-                 real_tree s' r' = Some (Dir (N.land m 1023) [] []).
+                 real_tree s' r' = Some (Dir (cu_mode m) [] []).
 Proof. exact create_upper_dir_preserves. Qed.
+Example C11_copy_up_dir_modes :
+  cu_mode 1517 = 1517 /\ cu_mode 2541 = 2541 /\ cu_mode 3565 = 3565 /\ cu_mode 2047 = 2047 /\ cu_mode 1023 = 1023 /\ cu_mode 33261 = 493.
+Proof. repeat split. Qed.
 
 (* non-vacuity of the copy-up hypotheses: a lower-only file two directories deep is copied up *)
 Example C11_copy_up_nonvacuous :
